@@ -217,12 +217,24 @@ def rule_t2(chk: Check, ix: Index):
     chain = [n for n in loop.body if isinstance(n, ast.If)]
     if not chain:
         raise AnalysisError("mode dispatch of the line loop not found")
+    # end of input handled once, in front of the dispatch: an `if <EOF>:` block every path of which leaves the loop or raises
+    from ..pyflow import stmt_paths
+    hoisted = False
+    if _eof_test(chain[0].test) and not chain[0].orelse:
+        try:
+            ps = stmt_paths(list(chain[0].body), opaque_loops=True)
+            hoisted = bool(ps) and all(p[-1][1] in ("break", "raise", "return") for p in ps)
+        except AnalysisError:
+            hoisted = False
+        chain = chain[1:]
+        if not chain:
+            raise AnalysisError("mode dispatch of the line loop not found")
     branches = _branches(chain[0])
     chk.units["line_loop_branches"] = [norm_stmt(t) if t is not None else "else" for t, _ in branches]
     for test, body in branches:
         name = norm_stmt(test) if test is not None else "else"
         chk.count("T2-eof-exit")
-        ok, how = _eof_leaves(ix, body, loop, name)
+        ok, how = (True, "end of input is handled in front of the dispatch") if hoisted else _eof_leaves(ix, body, loop, name)
         chk.require(ok, "T2-eof-exit", f"_tokenize:{name}", f"{f.rel}:{body[0].lineno}",
                     f"at end of input (readline returned '') the branch `{name}` must leave the line loop or raise; {how}")
 
